@@ -35,33 +35,68 @@ type instance struct {
 	all  func() []string // the model's own full listing (keys), not paged
 	del  func(id string) error
 	// creation / update APIs of the model (nil where the model has none of that kind)
-	add    func(id string) (string, error)   // Collection.Add(id, WithGenIDIfAbsent): "" = let the model invent the id; returns the id used
+	add    func(id string) (string, error)  // Collection.Add(id, WithGenIDIfAbsent): "" = let the model invent the id; returns the id used
 	ensure func(name string, viaTrait bool) // parent: AddChild / AddChildTrait
-	update func(id string, bare bool) error // Update* of one item; bare: the written message does not carry the id (publication: the id is a separate argument)
+	// Update* of one item under op.ID. op.Alt: the written message does not carry the id; op.MsgID: it carries THIS id
+	// (both only where the id is a separate argument: publication); op.Upsert: resource.WithCreateIfAbsent();
+	// op.Mask: "" = no update mask, "key" = a mask naming the key field and others, "nokey" = a mask leaving the key out.
+	update func(op storeOp) error
+	// delAllow: Delete*(id, resource.WithAllowMissing(true)) (nil where the model's delete takes no options)
+	delAllow func(id string) error
+	// via runs op through the trait server's own RPC (op.Via); handled = false when the server has no such RPC
+	via func(op storeOp) (handled bool, got string, err error)
+}
+
+// updateMask is the update_mask field of an Update… request for op.
+func (r rpc) updateMask(op storeOp) *fieldmaskpb.FieldMask {
+	switch op.Mask {
+	case "key":
+		return &fieldmaskpb.FieldMask{Paths: append([]string{r.Key}, r.Upd...)}
+	case "nokey":
+		return &fieldmaskpb.FieldMask{Paths: append([]string{}, r.Upd...)}
+	}
+	return nil
+}
+
+// writeOpts are the resource write options an update op asks for.
+func (r rpc) writeOpts(op storeOp) []resource.WriteOption {
+	var opts []resource.WriteOption
+	switch op.Mask {
+	case "key":
+		opts = append(opts, resource.WithUpdatePaths(append([]string{r.Key}, r.Upd...)...))
+	case "nokey":
+		opts = append(opts, resource.WithUpdatePaths(r.Upd...))
+	}
+	if op.Upsert {
+		opts = append(opts, resource.WithCreateIfAbsent())
+	}
+	return opts
 }
 
 // rpc describes one of the seven paged List RPCs.
 type rpc struct {
 	Name    string
-	Variant string // "gt": search > lastKey; "ge": search >= lastKey then skip equal; "waste": index tokens
-	Key     string // read-mask path of the key field
-	Wit     string // read-mask path of the witness field ("" = none)
-	// build populates a fresh model with the given ids through the trait's public API and returns the
-	// server-level list call. For waste the ids are the record ids in insertion order.
-	build func(ids []string) (*instance, error)
+	Variant string   // "gt": search > lastKey; "ge": search >= lastKey then skip equal; "waste": index tokens
+	Key     string   // read-mask path of the key field
+	Wit     string   // read-mask path of the witness field ("" = none)
+	Upd     []string // update-mask paths that leave the key field out (nil: the model's Update takes no options)
+	// build populates a fresh model with the given ids and returns the server-level list call: the first ninit ids
+	// are configured as initial records (the model's WithInitial… option; hail: resource.WithInitialRecord), the
+	// others go through the trait's creation API. For waste the ids are the record ids in insertion order.
+	build func(r rpc, ids []string, ninit int) (*instance, error)
 }
 
 var ctx = context.Background()
 
 func rpcs() []rpc {
 	return []rpc{
-		{"electric.ListModes", "gt", "id", "title", buildElectric},
-		{"hail.ListHails", "gt", "id", "origin", buildHail},
-		{"parent.ListChildren", "ge", "name", "parent", buildParent},
-		{"publication.ListPublications", "gt", "id", "media_type", buildPublication},
-		{"vending.ListConsumables", "gt", "name", "title", buildConsumables},
-		{"vending.ListInventory", "gt", "consumable", "", buildInventory},
-		{"waste.ListWasteRecords", "waste", "id", "area", buildWaste},
+		{"electric.ListModes", "gt", "id", "title", []string{"title", "description"}, buildElectric},
+		{"hail.ListHails", "gt", "id", "origin", []string{"origin", "destination"}, buildHail},
+		{"parent.ListChildren", "ge", "name", "parent", nil, buildParent},
+		{"publication.ListPublications", "gt", "id", "media_type", []string{"body", "media_type"}, buildPublication},
+		{"vending.ListConsumables", "gt", "name", "title", []string{"title", "display_name"}, buildConsumables},
+		{"vending.ListInventory", "gt", "consumable", "", []string{"dispensing"}, buildInventory},
+		{"waste.ListWasteRecords", "waste", "id", "area", nil, buildWaste},
 	}
 }
 
@@ -74,9 +109,13 @@ func rpcByName(n string) (rpc, bool) {
 	return rpc{}, false
 }
 
-func buildElectric(ids []string) (*instance, error) {
-	m := electricpb.NewModel()
-	for _, id := range ids {
+func buildElectric(r rpc, ids []string, ninit int) (*instance, error) {
+	var initial []*traits.ElectricMode
+	for _, id := range ids[:ninit] {
+		initial = append(initial, &traits.ElectricMode{Id: id, Title: id})
+	}
+	m := electricpb.NewModel(electricpb.WithInitialMode(initial...))
+	for _, id := range ids[ninit:] {
 		if err := m.AddMode(&traits.ElectricMode{Id: id, Title: id}); err != nil {
 			return nil, fmt.Errorf("AddMode(%q): %v", id, err)
 		}
@@ -102,7 +141,8 @@ func buildElectric(ids []string) (*instance, error) {
 			}
 			return ks
 		},
-		del: func(id string) error { return m.DeleteMode(id) },
+		del:      func(id string) error { return m.DeleteMode(id) },
+		delAllow: func(id string) error { return m.DeleteMode(id, resource.WithAllowMissing(true)) },
 		add: func(id string) (string, error) {
 			if id == "" {
 				mode, err := m.CreateMode(&traits.ElectricMode{Title: "generated"})
@@ -110,20 +150,25 @@ func buildElectric(ids []string) (*instance, error) {
 			}
 			return id, m.AddMode(&traits.ElectricMode{Id: id, Title: id})
 		},
-		update: func(id string, bare bool) error {
-			_, err := m.UpdateMode(&traits.ElectricMode{Id: id, Title: id, Description: "updated"})
+		update: func(op storeOp) error {
+			_, err := m.UpdateMode(&traits.ElectricMode{Id: op.ID, Title: op.ID, Description: "updated"}, r.writeOpts(op)...)
 			return err
 		},
 	}, nil
 }
 
-func buildHail(ids []string) (*instance, error) {
-	// hail ids are always generated by CreateHail; chosen ids come in as initial records
+func buildHail(r rpc, ids []string, ninit int) (*instance, error) {
+	// hail ids are always generated by CreateHail; chosen ids come in as initial records or are upserted
 	opts := []resource.Option{hailpb.WithKeepAlive(-1 * time.Second)}
-	for _, id := range ids {
+	for _, id := range ids[:ninit] {
 		opts = append(opts, resource.WithInitialRecord(id, &traits.Hail{Id: id, Origin: &traits.Hail_Location{Name: id}}))
 	}
 	m := hailpb.NewModel(opts...)
+	for _, id := range ids[ninit:] {
+		if _, err := m.UpdateHail(&traits.Hail{Id: id, Origin: &traits.Hail_Location{Name: id}}, resource.WithCreateIfAbsent()); err != nil {
+			return nil, fmt.Errorf("UpdateHail(%q, WithCreateIfAbsent): %v", id, err)
+		}
+	}
 	s := hailpb.NewModelServer(m)
 	return &instance{
 		list: func(size int32, token string, mask []string) pageResp {
@@ -145,22 +190,42 @@ func buildHail(ids []string) (*instance, error) {
 			}
 			return ks
 		},
-		del: func(id string) error { _, err := m.DeleteHail(id); return err },
+		del:      func(id string) error { _, err := m.DeleteHail(id); return err },
+		delAllow: func(id string) error { _, err := m.DeleteHail(id, resource.WithAllowMissing(true)); return err },
+		via: func(op storeOp) (bool, string, error) {
+			switch {
+			case op.Via == "rpc" && op.Kind == "add":
+				h, err := s.CreateHail(ctx, &traits.CreateHailRequest{Hail: &traits.Hail{Origin: &traits.Hail_Location{Name: "generated"}}})
+				return true, h.GetId(), err
+			case op.Via == "rpc" && op.Kind == "update":
+				_, err := s.UpdateHail(ctx, &traits.UpdateHailRequest{UpdateMask: r.updateMask(op),
+					Hail: &traits.Hail{Id: op.ID, Origin: &traits.Hail_Location{Name: op.ID}, Destination: &traits.Hail_Location{Name: "updated"}}})
+				return true, op.ID, err
+			case op.Via == "rpc" && op.Kind == "delete":
+				_, err := s.DeleteHail(ctx, &traits.DeleteHailRequest{Id: op.ID, AllowMissing: op.AllowMissing})
+				return true, op.ID, err
+			}
+			return false, "", nil
+		},
 		add: func(id string) (string, error) {
 			// CreateHail always invents the id
 			h, err := m.CreateHail(&traits.Hail{Origin: &traits.Hail_Location{Name: "generated"}})
 			return h.GetId(), err
 		},
-		update: func(id string, bare bool) error {
-			_, err := m.UpdateHail(&traits.Hail{Id: id, Origin: &traits.Hail_Location{Name: id}, Destination: &traits.Hail_Location{Name: "updated"}})
+		update: func(op storeOp) error {
+			_, err := m.UpdateHail(&traits.Hail{Id: op.ID, Origin: &traits.Hail_Location{Name: op.ID}, Destination: &traits.Hail_Location{Name: "updated"}}, r.writeOpts(op)...)
 			return err
 		},
 	}, nil
 }
 
-func buildParent(ids []string) (*instance, error) {
-	m := parentpb.NewModel()
-	for _, id := range ids {
+func buildParent(r rpc, ids []string, ninit int) (*instance, error) {
+	var initial []*traits.Child
+	for _, id := range ids[:ninit] {
+		initial = append(initial, &traits.Child{Name: id, Parent: id})
+	}
+	m := parentpb.NewModel(parentpb.WithInitialChildren(initial...))
+	for _, id := range ids[ninit:] {
 		m.AddChild(&traits.Child{Name: id, Parent: id})
 	}
 	s := parentpb.NewModelServer(m)
@@ -184,7 +249,8 @@ func buildParent(ids []string) (*instance, error) {
 			}
 			return ks
 		},
-		del: func(id string) error { _, err := m.RemoveChildByName(id); return err },
+		del:      func(id string) error { _, err := m.RemoveChildByName(id); return err },
+		delAllow: func(id string) error { _, err := m.RemoveChildByName(id, resource.WithAllowMissing(true)); return err },
 		ensure: func(name string, viaTrait bool) {
 			if viaTrait {
 				m.AddChildTrait(name, trait.OnOff)
@@ -192,8 +258,8 @@ func buildParent(ids []string) (*instance, error) {
 				m.AddChild(&traits.Child{Name: name, Parent: name})
 			}
 		},
-		update: func(id string, bare bool) error {
-			if m.RemoveChildTrait(id, trait.Light) == nil {
+		update: func(op storeOp) error {
+			if m.RemoveChildTrait(op.ID, trait.Light) == nil {
 				return status.Error(codes.NotFound, "no such child")
 			}
 			return nil
@@ -201,9 +267,13 @@ func buildParent(ids []string) (*instance, error) {
 	}, nil
 }
 
-func buildPublication(ids []string) (*instance, error) {
-	m := publicationpb.NewModel()
-	for _, id := range ids {
+func buildPublication(r rpc, ids []string, ninit int) (*instance, error) {
+	var initial []*traits.Publication
+	for _, id := range ids[:ninit] {
+		initial = append(initial, &traits.Publication{Id: id, Body: []byte("b" + id), MediaType: id})
+	}
+	m := publicationpb.NewModel(publicationpb.WithInitialPublication(initial...))
+	for _, id := range ids[ninit:] {
 		if _, err := m.CreatePublication(&traits.Publication{Id: id, Body: []byte("b" + id), MediaType: id}); err != nil {
 			return nil, fmt.Errorf("CreatePublication(%q): %v", id, err)
 		}
@@ -229,26 +299,64 @@ func buildPublication(ids []string) (*instance, error) {
 			}
 			return ks
 		},
-		del: func(id string) error { _, err := m.DeletePublication(id); return err },
+		del:      func(id string) error { _, err := m.DeletePublication(id); return err },
+		delAllow: func(id string) error { _, err := m.DeletePublication(id, resource.WithAllowMissing(true)); return err },
+		via: func(op storeOp) (bool, string, error) {
+			switch {
+			case op.Via == "rpc" && op.Kind == "add":
+				p, err := s.CreatePublication(ctx, &traits.CreatePublicationRequest{Publication: &traits.Publication{Id: op.ID, Body: []byte("b"), MediaType: op.ID}})
+				return true, p.GetId(), err
+			case op.Via == "rpc" && op.Kind == "update":
+				_, err := s.UpdatePublication(ctx, &traits.UpdatePublicationRequest{UpdateMask: r.updateMask(op),
+					Publication: &traits.Publication{Id: op.ID, Body: []byte("updated"), MediaType: op.ID}})
+				return true, op.ID, err
+			case op.Via == "ack" && op.Kind == "update":
+				version := "none"
+				if p, ok := m.GetPublication(op.ID); ok {
+					if p.Version == "" {
+						// only a publication with a version can be acknowledged: give it one (a masked update, too)
+						if _, err := m.UpdatePublication(op.ID, &traits.Publication{}, resource.WithUpdatePaths("media_type"), publicationpb.WithNewVersion()); err != nil {
+							return true, "", err
+						}
+						p, _ = m.GetPublication(op.ID)
+					}
+					version = p.Version
+				}
+				_, err := s.AcknowledgePublication(ctx, &traits.AcknowledgePublicationRequest{Id: op.ID, Version: version,
+					Receipt: traits.Publication_Audience_ACCEPTED, AllowAcknowledged: true})
+				return true, op.ID, err
+			case op.Via == "rpc" && op.Kind == "delete":
+				_, err := s.DeletePublication(ctx, &traits.DeletePublicationRequest{Id: op.ID, AllowMissing: op.AllowMissing})
+				return true, op.ID, err
+			}
+			return false, "", nil
+		},
 		add: func(id string) (string, error) {
 			p, err := m.CreatePublication(&traits.Publication{Id: id, Body: []byte("b"), MediaType: id})
 			return p.GetId(), err
 		},
-		update: func(id string, bare bool) error {
-			// the id is a separate argument of UpdatePublication: the server's own AcknowledgePublication passes a message without Id
-			p := &traits.Publication{Id: id, Body: []byte("updated"), MediaType: id}
-			if bare {
+		update: func(op storeOp) error {
+			// the id is a separate argument of UpdatePublication: the server's own AcknowledgePublication passes a
+			// message without Id, and nothing makes a caller pass the same id twice
+			p := &traits.Publication{Id: op.ID, Body: []byte("updated"), MediaType: op.ID}
+			if op.Alt {
 				p.Id = ""
+			} else if op.MsgID != "" {
+				p.Id = op.MsgID
 			}
-			_, err := m.UpdatePublication(id, p)
+			_, err := m.UpdatePublication(op.ID, p, r.writeOpts(op)...)
 			return err
 		},
 	}, nil
 }
 
-func buildConsumables(ids []string) (*instance, error) {
-	m := vendingpb.NewModel()
-	for _, id := range ids {
+func buildConsumables(r rpc, ids []string, ninit int) (*instance, error) {
+	var initial []*traits.Consumable
+	for _, id := range ids[:ninit] {
+		initial = append(initial, &traits.Consumable{Name: id, Title: id})
+	}
+	m := vendingpb.NewModel(vendingpb.WithInitialConsumable(initial...))
+	for _, id := range ids[ninit:] {
 		if _, err := m.CreateConsumable(&traits.Consumable{Name: id, Title: id}); err != nil {
 			return nil, fmt.Errorf("CreateConsumable(%q): %v", id, err)
 		}
@@ -274,21 +382,26 @@ func buildConsumables(ids []string) (*instance, error) {
 			}
 			return ks
 		},
-		del: func(id string) error { _, err := m.DeleteConsumable(id); return err },
+		del:      func(id string) error { _, err := m.DeleteConsumable(id); return err },
+		delAllow: func(id string) error { _, err := m.DeleteConsumable(id, resource.WithAllowMissing(true)); return err },
 		add: func(id string) (string, error) {
 			c, err := m.CreateConsumable(&traits.Consumable{Name: id, Title: id})
 			return c.GetName(), err
 		},
-		update: func(id string, bare bool) error {
-			_, err := m.UpdateConsumable(&traits.Consumable{Name: id, Title: id, DisplayName: "updated"})
+		update: func(op storeOp) error {
+			_, err := m.UpdateConsumable(&traits.Consumable{Name: op.ID, Title: op.ID, DisplayName: "updated"}, r.writeOpts(op)...)
 			return err
 		},
 	}, nil
 }
 
-func buildInventory(ids []string) (*instance, error) {
-	m := vendingpb.NewModel()
-	for _, id := range ids {
+func buildInventory(r rpc, ids []string, ninit int) (*instance, error) {
+	var initial []*traits.Consumable_Stock
+	for _, id := range ids[:ninit] {
+		initial = append(initial, &traits.Consumable_Stock{Consumable: id})
+	}
+	m := vendingpb.NewModel(vendingpb.WithInitialStock(initial...))
+	for _, id := range ids[ninit:] {
 		if _, err := m.CreateStock(&traits.Consumable_Stock{Consumable: id}); err != nil {
 			return nil, fmt.Errorf("CreateStock(%q): %v", id, err)
 		}
@@ -314,19 +427,31 @@ func buildInventory(ids []string) (*instance, error) {
 			}
 			return ks
 		},
-		del: func(id string) error { _, err := m.DeleteStock(id); return err },
+		del:      func(id string) error { _, err := m.DeleteStock(id); return err },
+		delAllow: func(id string) error { _, err := m.DeleteStock(id, resource.WithAllowMissing(true)); return err },
+		via: func(op storeOp) (bool, string, error) {
+			switch {
+			case op.Via == "rpc" && op.Kind == "update":
+				_, err := s.UpdateStock(ctx, &traits.UpdateStockRequest{UpdateMask: r.updateMask(op), Stock: &traits.Consumable_Stock{Consumable: op.ID, Dispensing: true}})
+				return true, op.ID, err
+			case op.Via == "dispense" && op.Kind == "update":
+				_, err := s.Dispense(ctx, &traits.DispenseRequest{Consumable: op.ID, Quantity: &traits.Consumable_Quantity{Amount: 1}})
+				return true, op.ID, err
+			}
+			return false, "", nil
+		},
 		add: func(id string) (string, error) {
 			st, err := m.CreateStock(&traits.Consumable_Stock{Consumable: id})
 			return st.GetConsumable(), err
 		},
-		update: func(id string, bare bool) error {
-			_, err := m.UpdateStock(&traits.Consumable_Stock{Consumable: id, Dispensing: true})
+		update: func(op storeOp) error {
+			_, err := m.UpdateStock(&traits.Consumable_Stock{Consumable: op.ID, Dispensing: true}, r.writeOpts(op)...)
 			return err
 		},
 	}, nil
 }
 
-func buildWaste(ids []string) (*instance, error) {
+func buildWaste(r rpc, ids []string, ninit int) (*instance, error) {
 	m := wastepb.NewModel()
 	wastepb.VerifSetRecords(m, nil) // NewModel pre-generates 100 records
 	for _, id := range ids {
